@@ -221,7 +221,8 @@ def audit_sources(files):
 
 def audit_axioms(pid, module, theorems):
     """returns (ok, {theorem: [axioms]}, log)"""
-    src = "import %s\n" % module + "".join("#print axioms %s\n" % t for t in theorems)
+    modules = [module] if isinstance(module, str) else list(module)
+    src = "".join("import %s\n" % m for m in modules) + "".join("#print axioms %s\n" % t for t in theorems)
     path = os.path.join(LEAN, ".lake", "audit_%s.lean" % pid)
     os.makedirs(os.path.dirname(path), exist_ok=True)
     with open(path, "w") as f:
